@@ -38,6 +38,8 @@ KINDS = {
     'discrete': (lambda m: Envs.DiscreteWorld(m, 3, 2, 2), (1, 1, 1)),
     'line': (lambda m: Envs.LineWorld(m, 3), (1,)),
     'grid': (lambda m: Envs.GridWorld(m, 3, 2), (2, 1)),
+    'grid_wrap': (lambda m: Envs.GridWorld(m, 3, 2, wrap_env=True), (2, 1)),
+    'space_wrap': (lambda m: Envs.SpaceWorld(m, 3, 2, 0, wrap_env=True), (1.5, 0.5, 0)),
 }
 
 META = {
@@ -288,6 +290,8 @@ def handover_case(case):
     ma, mb = new_model(seed=1), new_model(seed=2)
     mk, pos = KINDS[case['kind']]
     env = mk(ma) if mk is not None else Core.Environment(ma)
+    env.add_component(X(env, ma))        # the world is an agent too and carries a component of its own: it lives in no
+    #                                      environment, so no model lists that component - whoever installs the world
     if case.get('populate_first'):
         # the world is populated BEFORE it is installed: installing it does not change who lives in it
         settler = Core.Agent('settler', ma)
@@ -395,6 +399,12 @@ def scale_case(case):
         res.append(i)
         steps += 1
     check('after all joined')
+    if mk is not None and hasattr(env, 'move'):
+        # residents move about (across the seam of a wrapping world too): nobody joins or leaves, the listings stay put
+        for j in (0, min(1, n - 1)):
+            env.move(agents[res[j]], 5, -5)
+            env.move(agents[res[j]], -1, 0)
+        check('after two residents moved (across the edges)')
     if mk is not None and not case.get('quiet'):
         # an agent that already carries a position component of its own asks to join the spatial world: whether the world
         # takes it or refuses it (with whatever error), its components are listed exactly if it is resident afterwards
@@ -448,7 +458,8 @@ def scale_case(case):
 
 
 def scale_cases(tier):
-    kinds = ('plain', 'grid') if tier == 'quick' else ('plain', 'space', 'discrete', 'line', 'grid')
+    kinds = ('plain', 'grid', 'grid_wrap') if tier == 'quick' else ('plain', 'space', 'discrete', 'line', 'grid', 'grid_wrap',
+                                                                    'space_wrap')
     for kind in kinds:
         for n in (5, 40):
             for victims in ([0], [1, 3], [n // 2, 0, n - 1], [n - 1]) + (([5, 9, 11], [21, 1, 15]) if n == 40 else ()):
